@@ -21,4 +21,5 @@ TESTS = [Test('machine', _run, machine=sm.machine_factory(PROP),
               examples={'quick': 3200, 'thorough': 60000}, steps={'quick': 16, 'thorough': 40},
               shrink={'quick': True, 'thorough': True})]
 
-KNOWN = {}
+KNOWN = {'F52-gradient-norm-tolerance-calls-raw-cost': sm.kf_gnt}
+from vp.solver_machine import kf_gnt as _kf_gnt_pred
